@@ -50,6 +50,16 @@ CHECKS = {
    "Real ShardSplitter over real Parquet chunks (rows below, at, above the split point) on both catalog back ends: for every object-store / catalog request of execute_split_with_monitoring and each mode in {fail-before, fail-after, crash}: recovery (resume_split up to 4 times on a fresh splitter, fresh split when nothing was recorded) must finish, and the final state must equal the uninterrupted one: two Active shards partitioning the range at the split point, old shard PendingDeletion, no split state / progress object, every old row in exactly one new shard on its side (split point to the upper shard) exactly once, no old-shard delete before the cut-over completed.",
    "crash-after-request-i equals crash-before-request-i+1 (memory is lost); sleeps on virtual time; new shard ids are taken from the last progress object written",
    "DESIGN.md section 5 C14"),
+ "C15": (ENGINE_C, "exploration",
+   "bounded-exhaustive input enumeration against a reference: the real Ingester::write under split states installed through the real MetadataClient, decoded new-shard chunks compared with the accepted rows; QueryNode::query compared with the same SQL over a MemTable of each accepted row once; the de-duplication routine run on every bounded input",
+   "Routing: {in-memory, object-store catalog} x {Int64, Timestamp(ns)} x split points x 7 phase settings x all write histories of 1 write of <=3 rows over 12 (36) row values or 2 writes over ts {split-1, split, split+1} x metric x host x value: every accepted row in exactly one new shard on its side (split point to the upper shard), nothing outside DualWrite/Backfill. Reads: multisets of <=2 (3) rows + mixed-metric and two-write histories x 11 (19) queries incl. aggregates, judged after a flush in DualWrite/Backfill; a lifecycle walk through all phases; dedup routine on <=3 (4) rows x <=2 batches x Int64/Timestamp x Utf8/Utf8View. The routing half holds; the read half fails on four recorded causes (C15-F1..F4).",
+   "a batch's shard is the one the ingester derives from its first row; Timestamp-typed writes rejected by dual-write are counted, not judged; fresh query node per check; DataFusion is evaluator and reference; frozen clock and entropy",
+   "DESIGN.md section 5 C15"),
+ "C16": (ENGINE_B, "model_checking",
+   "bounded-exhaustive explicit-state search over operation histories of the real TieredCache + CachedObjectStore (fresh objects per history, every answer compared with the backing store's answer to the identical request), plus exhaustive interleaving exploration of concurrent readers under the controlled scheduler with backing requests as gated scheduling points and clock jumps as extra transitions",
+   "(a) all histories up to depth 3-6 (quick) / 3-8 (thorough) over new-object PUT (via the wrapper or directly, sizes 1/100/5000 B), 17 read kinds (get, get_opts plain/bounded/offset/suffix/if_match/if_none_match/date conditions/head, get_range, get_ranges, head) on <=4 name-related keys incl. missing ones, clock ticks, disk-tier settle; L1 in {0,1,100,200,5000,1 MiB} B x disk tier in {none, 4096, 8192, 128 MiB} x 1-3 preloaded contents (eviction on every insert, objects larger than a tier, L2->L1 promotion). (b) all interleavings of 2 (3) tasks x 2-3 reads on same / crossed / related / missing keys incl. one writer of a new object and <=2 clock jumps, L1-only configurations.",
+   "a read that must fail may fail with any error kind; answers that ignore date preconditions but return exact bytes are not judged; only meta.size/location compared; disk-tier configurations sequential only (foyer runs its own threads); delete/rename through the wrapper is outside the quantifier and reported as an observation unless VERIF_C16_EXT_STRICT=1",
+   "DESIGN.md section 5 C16"),
  "C20": (ENGINE_B, "model_checking",
    "explicit enumeration of every initial catalog x configuration of a bounded family, each driven through repeated real compaction cycles with the invariant checked between cycles",
    "All catalogs with 0..3/2/2/1 (thorough 0..4/3/4/3) chunks at L0 hour A / L0 hour B / L1 / L2 x merge threshold {2,3} x level target size {1 B, ~2 chunks, ~100 chunks} x max_levels {2,4} x both back ends: a fixed point is reached within 8 cycles, candidate groups offered before each cycle are pairwise disjoint and level-homogeneous, groups actually merged (leases) are disjoint and of the lease's level, every level equals max(replaced)+1 or stays, rows conserved.",
